@@ -225,3 +225,67 @@ def rotation_stub(ctx, name="scipy Rotation.from_rotvec(theta * e_k).as_matrix()
                 t = z3.ToReal(t)
             return _Rot(kk, t)
     return RotationStub
+
+
+class _OptResult:
+    def __init__(self, x):
+        self.x, self.success, self.fun = x, True, None
+
+
+def minimize_stub(ctx, monotone=True, name="scipy.optimize.minimize(f, x0, method='Powell'): returns some x of the length of x0"):
+    """Assumed contract of the optimiser: an arbitrary vector of the right length; with monotone=True additionally
+    f(x) <= f(x0) (Powell's method never accepts an increase).  Calls are recorded in ctx.minimize_calls."""
+    import z3
+    from .sym import PathCtx
+    nm = name + ("; f(x) <= f(x0)" if monotone else "")
+
+    def minimize(fun, x0, *a, **k):
+        x0 = np.asarray(x0)
+        calls = ctx.__dict__.setdefault("minimize_calls", [])
+        if not ctx.sym:
+            import scipy.optimize
+            r = scipy.optimize.minimize(fun, x0, *a, **k)
+            calls.append(dict(fun=fun, x0=x0, x=r.x))
+            return r
+        ctx.stub_used(nm)
+        n = len(calls)
+        x = np.array([ctx.real(f"opt{n}_{i}", sample=(-1.0, 1.0)) for i in range(x0.size)], dtype=object)
+        if monotone:
+            fx, fx0 = fun(x), fun(x0)
+            PathCtx.cur.add(lift(fx) <= lift(fx0))
+        calls.append(dict(fun=fun, x0=x0, x=x))
+        return _OptResult(x)
+    return minimize
+
+
+import contextlib
+
+
+@contextlib.contextmanager
+def record_minimize(ctx):
+    """Concrete mode: wrap the REAL scipy.optimize.minimize so that its calls are recorded in ctx.minimize_calls (the
+    symbolic mode records through the stub).  The wrapper only observes."""
+    import scipy.optimize as so
+    real = so.minimize
+    calls = ctx.__dict__.setdefault("minimize_calls", [])
+
+    def wrapper(fun, x0, *a, **k):
+        n = len(calls)
+        size = np.asarray(x0).size
+        if ctx.values is not None and all(f"opt{n}_{i}" in ctx.values for i in range(size)):
+            # replay of a solver model: the dependency's result is forced to the (admissible) value of the model
+            from fractions import Fraction
+            x = np.array([float(Fraction(ctx.values[f"opt{n}_{i}"])) if isinstance(ctx.values[f"opt{n}_{i}"], str) else float(ctx.values[f"opt{n}_{i}"]) for i in range(size)])
+            calls.append(dict(fun=fun, x0=np.asarray(x0), x=x))
+            return _OptResult(x)
+        r = real(fun, x0, *a, **k)
+        calls.append(dict(fun=fun, x0=np.asarray(x0), x=r.x))
+        return r
+    if ctx.sym:
+        yield
+        return
+    so.minimize = wrapper
+    try:
+        yield
+    finally:
+        so.minimize = real
